@@ -132,6 +132,11 @@ def run(ctx):
             try:
                 full = d.rcell.supersize(*[(0, mults[i]) if i == line else (-mults[i] // 2, mults[i] // 2) for i in range(3)])
                 base, disl = d.periodicarray(sizemults=list(mults), shiftindex=si, center=center, boundarywidth=width, return_base_system=True)
+                # the systems kept on the object are the returned ones (the mapping back to the reference atoms is read from either)
+                if d.base_system.natoms != base.natoms or d.disl_system.natoms != disl.natoms or \
+                        not np.array_equal(d.base_system.atoms.pos, base.atoms.pos) or not np.array_equal(d.disl_system.atoms.pos, disl.atoms.pos):
+                    ctx.violation('periodicarray: the reference / dislocation systems kept on the object are not the returned ones',
+                                  'stored %d / %d atoms, returned %d / %d %s' % (d.base_system.natoms, d.disl_system.natoms, base.natoms, disl.natoms, vtag))
                 # cell rows in lattice coordinates (x4): (box.vects @ transform) expressed in the unit cell's vectors
                 rows = (np.array([full.box.vects[i] for i in range(3)]) @ Teff) @ np.linalg.inv(ucell.box.vects)
                 newrows = (disl.box.vects @ Teff) @ np.linalg.inv(ucell.box.vects)
@@ -163,6 +168,8 @@ def run(ctx):
             # ---------------- monopole ----------------------------------------------------------------------------------------
             try:
                 base, disl = d.monopole(sizemults=list(mults), shiftindex=si, center=center, boundaryshape=shape, boundarywidth=width, return_base_system=True)
+                if d.base_system.natoms != base.natoms or not np.array_equal(d.base_system.atoms.pos, base.atoms.pos) or not np.array_equal(d.disl_system.atoms.pos, disl.atoms.pos):
+                    ctx.violation('monopole: the reference / dislocation systems kept on the object are not the returned ones', vtag)
                 u = d.dislsol.displacement(base.atoms.pos - center)
                 res = disl.atoms.pos - base.atoms.pos - u
                 period = np.linalg.norm(base.box.vects[line])
